@@ -39,31 +39,7 @@ pub enum Ev {
     Finish(u8),
 }
 
-thread_local! {
-    /// One paused tokio runtime per worker thread, entered for the life of the thread: pool code may
-    /// create tokio timers (none does on the pinned tree) and must find a time driver; `Tick` moves
-    /// its clock together with the pool's own clock. Nothing runs *on* this runtime.
-    static VIRTUAL_RT: &'static tokio::runtime::Runtime = {
-        let rt: &'static tokio::runtime::Runtime = Box::leak(Box::new(
-            tokio::runtime::Builder::new_current_thread().enable_time().start_paused(true).build().expect("tokio runtime"),
-        ));
-        std::mem::forget(rt.enter());
-        rt
-    };
-}
-
-/// Make sure this thread is inside the virtual-time runtime context.
-pub fn enter_virtual_runtime() {
-    VIRTUAL_RT.with(|_| ());
-}
-
-fn advance_virtual_time(d: Duration) {
-    VIRTUAL_RT.with(|rt| {
-        rt.block_on(async move {
-            tokio::time::advance(d).await;
-        })
-    });
-}
+use crate::det::{advance_virtual_time, enter_virtual_runtime};
 
 impl Ev {
     pub fn text(&self) -> String {
